@@ -59,3 +59,36 @@ add("C10", "proof",
 add("C11", "proof",
     "Theorem truncated_rejected_partial: for every file in which PAR1 occurs only at its two ends, every strict prefix is rejected by the reader model at open time (trailing magic is checked before the footer length is trusted); the full statement is false for any reader (a value may hold a complete trailer): that crafted input is a known finding. Tie: EVERY strict prefix of files of five structs x three codecs plus crafted files is opened and iterated by the generated reader; accept/reject per prefix length must equal the reader model's; the NoInnerMagic hypothesis is evaluated on every file.",
     PROOF_NOTE, "Lean 4 theorem under an explicit decidable hypothesis + exhaustive prefix enumeration", "DESIGN.md §6 C11")
+
+add("C04", "proof",
+    "Theorems: every output of the nondeterministic level segmenter (any RLE/bit-packed run mix, >63 groups, multi-byte headers, arbitrary padding values) is a well-formed encoding of the same levels and the library-decoder model returns those levels for it (segment_spec, levels_any_segmentation); every stream the nondeterministic snappy encoder can emit decodes to its input (snappy_roundtrip); unknown/optional thrift fields and statistics never change what the reader extracts. Tie: files from the independent Lean writer PQ.specWrite under seeded random legal choices (run segmentation, per-column page splits, per-column codec, Lean snappy streams with literals and copies, gzip stored blocks, optional/unknown fields) must be read back correctly by the generated reader and identically by the reader model; the files are validated by PQ.parseFile and the Lean compressors' output by the external decoders.",
+    PROOF_NOTE + " The whole-file theorem for foreign files (readAll (specWrite c records) = records for every legal c) is not one theorem; its level, codec and metadata layers are.",
+    "Lean 4 theorems about a nondeterministic conformant writer + differential correspondence on its files", "DESIGN.md §6 C04")
+
+add("C18", "proof",
+    "Theorems about the reader model: a page whose header is not a v1 data page with PLAIN values (and RLE levels where the column has levels) makes the chunk read fail with an error before any byte is interpreted as a value; other codecs are an error; with the check passed the header dereference is total. Tie: one-feature mutants of otherwise valid foreign files (dictionary/index/v2 page, value encodings 2-9, BIT_PACKED/PLAIN level encodings, codecs 3-7; every column [sampled in quick], both row groups, first and later page): the generated reader's outcome must be an error no later than the bad row group with no row of it delivered and no panic, and equal to the reader model's.",
+    PROOF_NOTE, "Lean 4 theorems about the reader model's validation + exhaustive one-feature mutants", "DESIGN.md §6 C18")
+
+add("C16", "proof",
+    "Lean mirrors of ReadMetaData / PageHeaders / PageHeadersAtOffset compared field by field with the Go functions, and with the independent walk of PQ.parseFile (one header per data page in file order; from every page start, the shortest run of headers covering n, exactly one for n = 0); theorems: n = 0 returns exactly one header (needs num_values >= 0), readMetaData decodes exactly the bytes designated by the trailing length.",
+    PROOF_NOTE + " The general covering statement of PageHeadersAtOffset is decided by the correspondence and the walk, not by a theorem.",
+    "Lean 4 mirrors + independent walk as oracle", "DESIGN.md §6 C16")
+
+add("C13", "proof",
+    "Theorems over a heap/pool/instance model: for every world (arbitrary stale pool contents), every interleaving of instances whose programs follow the Get…defer Put discipline and every free-buffer choice, each instance's output equals what it emits alone (interleaving_indep, output_indep_pool), with a counter-example when Put precedes the emit; stale bytes exposed by reslicing a pooled buffer never reach the output; inventories regenerated from the source: every Get is paired with a deferred Put, buffers do not escape, the only package-level variables are the two pools and read-only values. Tie: byte equality of files and read results across repeat runs, runs after both pools were filled with garbage, and 16 concurrent goroutines; the same under the Go race detector.",
+    PROOF_NOTE + " Data-race freedom is a property of the Go memory model and scheduler that no executable model exhibits: the race-detector runs are exploration and that clause is partial.",
+    "Lean 4 invariant proof over interleavings of a pool model + regenerated inventories + byte-equality runs", "DESIGN.md §6 C13")
+
+add("C14", "proof",
+    "Lean model of parse.Fields (getField's traversal, exportedness, tag parsing, embedded hoisting) compared exactly with parse.Fields (imported from the working tree) on Go source rendered from declarations: insertion of an excluded field at every position of every struct of four struct families with exotic Go types, and replacement of every contiguous run of fields by an embedded struct; the decorated struct's field tree must equal the plain struct's. Theorems over the model (excluded_inert, embed_eq_inline) as listed in evidence.",
+    PROOF_NOTE + " Everything after parsing is a function of the field tree and type names; byte-identical files for equal trees are observed on generated programs, not proved.",
+    "Lean 4 model of the struct parser + exact differential correspondence", "DESIGN.md §6 C14")
+
+add("C15", "proof",
+    "Lean model of structs.Struct compared exactly (text) with the Go function on the footer schema of files written for every non-repeated shape; the regenerated struct parsed by parse.Fields must have the source struct's field tree; end to end: parquetgen -parquet on the file, compile, read the file back and compare with the written records. Theorems over the models (structOf/flatten/parseStruct) as listed in evidence.",
+    PROOF_NOTE, "Lean 4 models of struct regeneration and parsing + per-program validation", "DESIGN.md §6 C15")
+
+add("C05", "proof",
+    "What is proved is about the generic model: for every struct shape (field forest) and all values the model writer's file validates and holds exactly the written records (file_valid), striping is lossless. What ties a shape to it is per-program validation: today's parquetgen is run twice on every shape of the corpus (all <= 3-node shapes + a fixed sample of 4-node shapes in quick; all 1209 shapes with <= 4 nodes in thorough), the output compiled, and the generated writer/reader compared with the model on structurally enumerated values (writer bytes, independent validation, reference striping, read-back). The generator fails for 256 of the 1209 shapes (known findings, exact shape lists); any other failing shape, or a listed shape failing differently, is a violation.",
+    PROOF_NOTE + " 'Compiles' is the Go compiler's verdict. The generator's string synthesis is not modelled.",
+    "Lean 4 theorems for the generic model + translation validation per generated program", "DESIGN.md §6 C05")
